@@ -68,7 +68,7 @@ func racePass(c *engine.Ctx) {
 		return
 	}
 
-	getFixture() // children create their own; this one only provides the kind list
+	base := getFixture().dir // the children's scratch directories live below this one
 	defer cleanupFixture()
 
 	crashed := 0
@@ -94,7 +94,7 @@ func racePass(c *engine.Ctx) {
 			defer func() { <-sem }()
 
 			cmd := exec.Command(os.Args[0], "C17", "--racepass", c.Tier)
-			cmd.Env = append(os.Environ(), raceKindEnv+"="+k.Name)
+			cmd.Env = append(os.Environ(), raceKindEnv+"="+k.Name, fmt.Sprintf("%s=%s/child-%d", fixtureDirEnv, base, i))
 
 			var eb bytes.Buffer
 
@@ -128,6 +128,7 @@ func racePass(c *engine.Ctx) {
 	if crashed > 0 {
 		// engine.RunRacePass reports "race-pass/crashed" with the tail of stderr when no detector report explains it
 		fmt.Printf("RACEPASS-EXECUTIONS %d\n", total)
+		cleanupFixture()
 		os.Exit(3)
 	}
 }
